@@ -340,10 +340,66 @@ def gen_plan(S, index, tier):
     same_runs = len(lazies) * 8
     if index < pair_runs + sweep_runs + sandwich_runs + lazy_runs + same_runs:
         return _gen_same_call_plan(S, index - pair_runs - sweep_runs - sandwich_runs - lazy_runs, header, lazies)
+    long_runs = len(opnames)
+    off = pair_runs + sweep_runs + sandwich_runs + lazy_runs + same_runs
+    if index < off + long_runs:
+        return _gen_long_plan(S, index - off, header, opnames)
     plan = _gen_random_plan(S, header, tier)
     if index % 8 == 3:
         plan['header']['cold'] = True      # restart fault: this run executes in a process that has run nothing
     return plan
+
+
+LONG_SKIP = set()       # ops whose cost on a protein-sized annotation is out of proportion (filled from measurements)
+
+
+def _long_spec(S):
+    """a protein-sized annotation: 520-1100 residues, a handful of modifications of every kind that fragmentation-free
+    queries accept"""
+    n = S.pick([520, 640, 1100])
+    seq = ''.join(S.pick(SP.STD) for _ in range(n))
+    internal = {}
+    for _ in range(S.randint(2, 5)):
+        internal[str(S.randint(0, n - 1))] = [[S.pick(['Phospho', 'Oxidation', 15.9949, 'Methyl']), 1]]
+    internal[str(n - 1)] = [['Methyl', 1]]
+    return {'seq': seq, 'labile': [['Glycan:Hex', 1]] if S.coin(0.5) else [], 'static': ['[57.021464]@C'] if S.coin(0.6) else [],
+            'isotope': ['13C'] if S.coin(0.3) else [], 'unknown': [], 'nterm': [['Acetyl', 1]] if S.coin(0.6) else [],
+            'cterm': [['Amidated', 1]] if S.coin(0.4) else [], 'internal': internal, 'intervals': [],
+            'charge': S.pick([None, 2, 3]), 'adducts': None}
+
+
+def _gen_long_plan(S, k, header, opnames):
+    """size as a configuration knob: every catalogue op once on a protein-sized shared annotation (whatever the library
+    does differently for long input - recursion depth, chunking, caches that overflow - happens here), followed by a
+    second call of the same op (history) and, in a cold process, so that first-use state is being built"""
+    name = opnames[k]
+    cfg = SP.swarm_cfg(S)
+    sp = _long_spec(S)
+    short = copy.deepcopy(world.FIXED_SPECS[3])
+    pool, W = _mk_world(S, cfg, [sp, short], ['parse', 'parse'], 'quick')
+    header.update({'mode': 'long', 'op': name, 'clients': 1, 'faults': ['restart'], 'cold': True, 'len': len(sp['seq'])})
+    events = []
+    o = OPS[name]
+    if name in LONG_SKIP:
+        return {'header': header, 'pool': pool, 'events': events}
+    args = None
+    for _ in range(6):
+        args = args or o.gen(S, W)
+    if args is None:
+        return {'header': header, 'pool': pool, 'events': events}
+    if 'size' not in args:
+        for an, av in args.items():
+            if isinstance(av, dict) and av.get('h') in ('A1', 'S0') and an in ('sequence', 'self', 'other'):
+                args[an] = {'h': 'A0'}
+    for rep in range(2):
+        rh = f'R{rep}'
+        events.append({'act': 'call', 'client': 0, 'op': name, 'args': copy.deepcopy(args), 'out': rh,
+                       'twin_first': rep == 1})
+        if o.lazy:
+            for _ in range(3):
+                events.append({'act': 'step', 'client': 0, 'lazy': rh})
+            events.append({'act': 'close', 'client': 0, 'lazy': rh})
+    return {'header': header, 'pool': pool, 'events': events}
 
 
 _SAME_PAIRS = [(0, 1), (2, 4), (1, 0), (4, 2)]      # FIXED_SPECS of equal length
@@ -1389,7 +1445,8 @@ RULE = (f"catalogue of {len(OPS)} ops ({len(OPS) - len(catalog.EDITORS)} queries
         "query again; next l*q*2: lazy pairs - a lazy result advanced by one item, another client's query (also evaluated in "
         "the pristine process), the lazy result drained or abandoned, the query again (second pass in cold processes); next l*8: same-call - two clients make "
         "the same lazy call on one object / on two unrelated objects of equal length and consume interleaved, the later "
-        "overtaking the earlier, in a cold process; other indices (every 8th in a cold process): seeded random history of 2-12 catalogue calls by 1-3 clients on 1-4 shared generated "
+        "overtaking the earlier, in a cold process; next n: long - every op once, twice in a row, on a protein-sized "
+        "(520-1100 residues) shared annotation in a cold process; other indices (every 8th in a cold process): seeded random history of 2-12 catalogue calls by 1-3 clients on 1-4 shared generated "
         "annotations plus shared list/dict arguments, with interleaved single steps / abandonment of lazy results, scribbles "
         "on returned values, RNG use, vocabulary refresh, poisoned modifications, in-place edits by the client of its own "
         "list/dict arguments between calls, calls under warnings-as-errors, per-run swarm switches; ~5% of the calls "
@@ -1403,7 +1460,8 @@ _NQ = len([o for o in OPS.values() if 'editor' not in o.tags])
 _NL = len([o for o in OPS.values() if o.lazy])
 FAMILY_STARTS = [0, _NOPS * _NOPS * 5, _NOPS * _NOPS * 5 + _NOPS * 15, _NOPS * _NOPS * 5 + _NOPS * 15 + _NQ * 10,
                  _NOPS * _NOPS * 5 + _NOPS * 15 + _NQ * 10 + _NL * _NQ * 2,
-                 _NOPS * _NOPS * 5 + _NOPS * 15 + _NQ * 10 + _NL * _NQ * 2 + _NL * 8]
+                 _NOPS * _NOPS * 5 + _NOPS * 15 + _NQ * 10 + _NL * _NQ * 2 + _NL * 8,
+                 _NOPS * _NOPS * 5 + _NOPS * 15 + _NQ * 10 + _NL * _NQ * 2 + _NL * 8 + _NOPS]
 ASSUMPTIONS = [
     "field accessors (properties, has_*, get_internal_mods_by_index) and Fragment.parent_sequence are references into "
     "the object by design and are not treated as 'results' for the aliasing clause",
